@@ -708,6 +708,18 @@ retry:
 			w = "exec-missing"
 			switch m.r.Intn(4) {
 			case 0:
+				if !m.noMoreBg && m.r.Intn(3) == 0 {
+					// the same in the background: a program that cannot be started fails the line at
+					// once (no job is registered, nothing is left for wait)
+					amp := m.pick([]string{"&", "&nostart&"})
+					if wantOK {
+						t = "! exec no-such-program-xyz " + amp
+					} else {
+						t, o = "exec no-such-program-xyz "+amp, oFail
+					}
+					ap = func() { m.stdoutKnown = false }
+					break
+				}
 				if wantOK {
 					t = "! exec no-such-program-xyz"
 					ap = func() { m.stdout, m.stderr, m.stdin, m.stdoutKnown = "", "", "", true }
